@@ -1243,8 +1243,7 @@ class Parser:
         # read in one piece (the path may be readable only once: a pipe, /dev/stdin) and decoded as CPython decodes a source
         # file: UTF-8 unless a coding declaration (PEP 263) says otherwise, a UTF-8 byte order mark is not part of the source
         source = cls._decode_source(path.read_bytes(), path.name)
-        if "\0" in source:
-            raise SyntaxError("source code string cannot contain null bytes", (path.name, source[: source.index("\0")].count("\n") + 1, 1, ""))
+        cls._refuse_nul(source, path.name)
         tok_stream = generate_tokens(io.StringIO(source, newline=None).readline)
         tokenizer = Tokenizer(tok_stream, verbose=verbose, path=str(path))
         tokenizer._lines = dict(enumerate(io.StringIO(source, newline=None).readlines(), 1))
@@ -1255,6 +1254,15 @@ class Parser:
             py_version=py_version,
         )
         return parser.parse("file")  # type: ignore
+
+    @staticmethod
+    def _refuse_nul(source: str, filename: str) -> None:
+        if "\0" in source:
+            lines = io.StringIO(source[: source.index("\0") + 1], newline=None).readlines()
+            column = len(lines[-1])  # of the NUL character, counted from one
+            text = io.StringIO(source, newline=None).readlines()[len(lines) - 1]
+            details = (filename, len(lines), column, text, len(lines), column + 1)
+            raise SyntaxError("source code string cannot contain null bytes", details)
 
     @staticmethod
     def _decode_source(data: bytes, filename: str) -> str:
@@ -1290,8 +1298,7 @@ class Parser:
         verbose: bool = False,
     ) -> Any:
         """Parse a string."""
-        if "\0" in source:
-            raise SyntaxError("source code string cannot contain null bytes")
+        cls._refuse_nul(source, "<unknown>")
         # universal newlines, as parse_file (text mode) and CPython read a source: "\r\n" and a lone "\r" end a line like "\n"
         tok_stream = generate_tokens(io.StringIO(source, newline=None).readline)
         tokenizer = Tokenizer(tok_stream, verbose=verbose)
